@@ -90,8 +90,15 @@ def quiet():
         os.close(devnull)
 
 
-def pool_solutions(model, limit=400, time_limit=20):
-    """Yield callables `val(var)` for up to `limit` feasible points of the captured model."""
+def pool_solutions(model, limit=400, time_limit=2.0, int_ub=None):
+    """Yield callables `val(var)` for up to `limit` feasible points of the captured model.
+
+    Unbounded integer variables (ILP start times) may be capped with `int_ub`: that only restricts the *sample* of
+    feasible points that is enumerated, every yielded point is still feasible for the scheduler's model."""
+    if int_ub is not None:
+        for v in model.getVars():
+            if v.VType == GRB.INTEGER and v.UB > int_ub and v.LB <= int_ub:
+                v.UB = int_ub
     model.setObjective(0, GRB.MAXIMIZE)
     model.Params.PoolSearchMode = 2
     model.Params.PoolSolutions = limit
@@ -129,3 +136,26 @@ def solve_with_objective(model, expr, sense=GRB.MAXIMIZE, time_limit=20):
         return v.X
 
     return model.Status, model.ObjVal, val
+
+
+def decode(policy_name, tasks_to_variables, val):
+    """Decode one feasible point through the scheduler's own variable objects.
+
+    Returns {task unique name: {"task", "previously_placed", "placed", "worker", "strategy", "start"}}."""
+    out = {}
+    for name, tv in tasks_to_variables.items():
+        task = tv.task
+        rec = {"task": task, "previously_placed": bool(tv.previously_placed), "placed": False, "worker": None, "strategy": None, "start": None, "multi": 0}
+        if policy_name == "ILP":
+            for (worker_id, strategy), var in tv._placed_on_worker_with_strategy.items():
+                if val(var) > 0.5:
+                    rec["multi"] += 1
+                    rec.update(placed=True, worker=worker_id, strategy=strategy)
+            rec["start"] = int(round(val(tv.start_time)))
+        else:
+            for (worker_id, t, strategy), var in tv.space_time_matrix.items():
+                if val(var) > 0.5:
+                    rec["multi"] += 1
+                    rec.update(placed=True, worker=worker_id, strategy=strategy, start=t)
+        out[name] = rec
+    return out
